@@ -41,7 +41,7 @@ fn rss_bytes() -> u64 {
 /// exceeds VERIF_RSS_CAP_MB, exits with a distinctive code so the driver can attribute the case.
 fn start_watchdog() {
     let stall = Duration::from_secs(env_u64("VERIF_STALL_S", 20));
-    let rss_cap = env_u64("VERIF_RSS_CAP_MB", 3072) * 1024 * 1024;
+    let rss_cap = env_u64("VERIF_RSS_CAP_MB", 4096) * 1024 * 1024;
     std::thread::spawn(move || {
         let mut last = PROGRESS.load(Ordering::Relaxed);
         let mut since = Instant::now();
